@@ -98,3 +98,7 @@ def run(ck, F):
             ck.violation("R4", "lookup-by-name-and-namespace", B.term(bb).get("sp"), "the base lookup does not use (local name, namespace) of the base QName", fn="import_extension_fields")
     if not nf_ok and not B.calls_to("RustDocument::find_node_by_xml_name"):
         ck.undecided("R4", "lookup", fb["span"], "no base lookup found")
+    # the lookup itself must select by namespace (shared with C09.R3): a base of another namespace with the same local name
+    # must not be confused with a local one
+    sub = C04._Sub(ck, "R4", lambda key: key.startswith(("find_node_by_xml_name", "try_to_find_node_by_xml_name")), only_rules=("R3",))
+    C09.run(sub, F)
